@@ -35,6 +35,8 @@ def families : List (String × Family) :=
   ++ [("scale_chunker", ScaleFam.wrap StreamFam.chunkerFamily)]
   ++ [("scale_reader", ScaleFam.wrap StreamFam.readerFamily)]
   ++ [("scale_readn", ScaleFam.wrap ReadNFam.family)]
+  ++ [("scale_tlv", ScaleFam.wrap RoughTlvFam.family)]
+  ++ [("scale_tlvview", ScaleFam.wrap RoughTlvFam.viewFamily)]
 
 def main (args : List String) : IO UInt32 := do
   match args with
